@@ -225,7 +225,7 @@ def instances(tier):
     shapes = []
     for n in range(2, 17):
         shapes.append(flat(n))
-    max_leaves = 5 if tier == "quick" else 6
+    max_leaves = 5 if tier == "quick" else 7
     for n in range(2, max_leaves + 1):
         for t in trees(n):
             if t not in shapes:
@@ -253,7 +253,7 @@ def instances(tier):
             continue
         seen.add(k)
         add(k, render_order(len(insts), t), {"kind": "order", "leaves": count_leaves(t)})
-    full = [2, 3, 8, 16] if tier != "quick" else [2, 3, 16]
+    full = list(range(2, 17)) if tier != "quick" else [2, 3, 16]
     for arity in range(2, 17):
         pairs = list(itertools.combinations(range(arity), 2)) if arity in full else [(0, 1), (0, arity - 1), (arity - 2, arity - 1)]
         for (i, j) in sorted(set(pairs)):
@@ -308,7 +308,7 @@ def run(pid, tier, replay, start):
     cov = {
         "evaluations": len(kept) + ts["words"] + (1 if nolock["ran"] else 0),
         "distinct_nontrivial": len(set(i.key for i in kept)) + ts["words"],
-        "rule": "order: every flat tuple arity 2..16, every nesting tree with <= 6 (quick: 5) leaves whose inner nodes have >= 2 children, unit elements at every position, every arity nested on either side of another tuple; rejection: ordered+unordered clauses of one method at every pair of positions for arities 2,3,8,16 (end positions for the others), both orders, and an empty stub at every position of arities 1..6; compile time: every builder word up to the length bound against the reference automaton; one cell for the feature set without mutex; all instances are non-trivial and distinct by construction",
+        "rule": "order: every flat tuple arity 2..16, every nesting tree with <= 7 (quick: 5) leaves whose inner nodes have >= 2 children, unit elements at every position, every arity nested on either side of another tuple; rejection: ordered+unordered clauses of one method at every pair of positions for every arity 2..16 (quick: arities 2, 3, 16 and the end positions of the others), both orders, and an empty stub at every position of arities 1..6; compile time: every builder word up to the length bound against the reference automaton; one cell for the feature set without mutex; all instances are non-trivial and distinct by construction",
         "samples": [{"shape": kept[3].key, "code": kept[3].code[:900]}],
         "exhaustive": True,
         "instances_by_kind": kinds,
